@@ -94,8 +94,10 @@ let () =
         if boundary gb <> gbb then failc "CORR" "boundary_of_boundary" (Printf.sprintf "impl=%s input=%s" f.(6) gd);
         (match List.map int_of_string (String.split_on_char ',' f.(7)) with
          | [d; e; bd; be] ->
-           if d <> int_of_nat (dimension g) then failc "CORR" "dimension" gd;
-           if (e = 1) <> is_empty g then failc "CORR" "is_empty" gd;
+           (* Dimension / IsEmpty agree with the structure (the model's dimension / is_empty ARE the
+              structural definitions: highest type present, typed empties counted; no control point) *)
+           if d <> int_of_nat (dimension g) then failc "SPEC" "dimension_vs_structure" (Printf.sprintf "impl=%d structure=%d input=%s" d (int_of_nat (dimension g)) gd);
+           if (e = 1) <> is_empty g then failc "SPEC" "is_empty_vs_structure" gd;
            (* Dimension / IsEmpty of the result agree with its structure *)
            if bd <> int_of_nat (dimension gb) then failc "SPEC" "boundary_dimension_vs_structure" gd;
            if (be = 1) <> is_empty gb then failc "SPEC" "boundary_is_empty_vs_structure" gd;
